@@ -147,6 +147,7 @@ package virtual
 
 //@ func (*inMemoryPrepopulatedDirectory).markDeleted
 //@   props C13
+//@   loop 0 exhaustive
 //@   loop 0 invariant (forall c ref :: c != &i.contents ==> touches(c) == old(touches(c))) && touches(&i.contents) >= old(touches(&i.contents)) && i == old(i)
 //@   loop 0 invariant forall d *inMemoryDirectoryContents :: d != &i.contents ==> d.changeID == old(d.changeID) && d.lastDataModificationTime == old(d.lastDataModificationTime)
 //@   modifies touches[&i.contents], clocknow, i.contents.isDeleted, i.contents.changeID, i.contents.lastDataModificationTime
@@ -408,6 +409,7 @@ package virtual
 //@   props C17
 //@   modifies leavesgivenback, leaflinks
 //@   at call Unlink#1 ghostset leavesgivenback[nil] = leavesgivenback(nil) + 1
+//@   loop 0 exhaustive
 //@   loop 0 invariant leavesgivenback(nil) == old(leavesgivenback(nil)) + rangeindex + 1 && rangeindex >= -1 && rangeindex < len(leavesToUnlink)
 //@   ensures every-remembered-leaf-is-given-back-once: leavesgivenback(nil) == old(leavesgivenback(nil)) + len(leavesToUnlink)
 //@ func (*casInitialContentsFetcher).fetchContentsUnwrapped
@@ -467,6 +469,7 @@ package virtual
 //@ func (*fileBackedFile).lockMutatingData
 //@   props C14 C16
 //@   lockeffect f.lock +1
+//@   loop 0 exhaustive
 //@   loop 0 invariant (f.file != nil) == (f.referenceCount > 0)
 //@   ensures no-upload-in-progress: f.frozenDescriptorsCount == 0
 //@ func (*fileBackedFile).virtualTruncate
